@@ -550,11 +550,17 @@ def merge(tmpl_toks, src_exec):
     pos = 0  # next template token index to emit
     prev_changed = False
     last_exec = '{'
+    merge.perturbed = False   # a proof statement was dropped, or stands right next to changed executable text
+    GST = ('proof', 'assert', 'assume', 'reveal')
+    def ghost_stmt(ts):
+        return any(t.ghost and (t.text in GST or (t.text == 'let' and k + 1 < len(ts) and ts[k + 1].text == 'ghost')) for k, t in enumerate(ts))
     for tag, i1, i2, j1, j2 in sm.get_opcodes():
         if tag == 'equal':
             stop = exec_idx[i2 - 1] + 1
             first = exec_idx[i1]
             lead = tmpl_toks[pos:first]
+            if prev_changed and ghost_stmt(lead):
+                merge.perturbed = True
             # ghost *statements* (proof blocks, ghost lets, asserts) that stood before the first matched token: after a
             # change they are kept only if they still land on a statement boundary of the generated text - otherwise the
             # statement they were written for is gone and they would end up inside an expression (dropped: dropping
@@ -581,6 +587,8 @@ def merge(tmpl_toks, src_exec):
                 stop = pos
                 # pure insertion: place before the ghost tokens that precede the next exec token? keep ghost
                 # chunks with the following statement: emit insertion right here (after previous exec token)
+            if ghost_stmt(tmpl_toks[pos:first]) or (i2 > i1 and ghost_stmt(tmpl_toks[first:exec_idx[i2 - 1] + 1])):
+                merge.perturbed = True
             # ghost tokens that sit before the first deleted exec token stay in front
             lead = [t for t in tmpl_toks[pos:first] if t.ghost] if i2 > i1 else []
             if i2 == i1:
@@ -686,6 +694,10 @@ def strip_comments(trivia):
 
 
 _tmpl_cache = {}
+# the statement skeleton of a function body: an edit that leaves it alone keeps every proof annotation on the statement
+# it was written for; an edit that changes it (statements added, removed, moved; branches swapped) may leave annotations
+# behind, so a proof that then fails says nothing about the code
+SKELETON = {';', '{', '}', 'if', 'else', 'while', 'for', 'loop', 'match', 'return', 'let', '=>', 'break', 'continue', '?'}
 
 
 def sig_tokens(toks, item):
@@ -943,6 +955,7 @@ def generate(unit, canary=False, expand=True):
                     gen = rebuild_struct(toks, item, stoks)
                 else:
                     gen = merge(ttoks, stoks)
+                    perturbed = merge.perturbed
                 if gen and gen[0] is not ttoks[0]:
                     gen[0].trivia = ttoks[0].trivia
                 eg = [t.text for t in gen if not t.ghost]
@@ -971,7 +984,11 @@ def generate(unit, canary=False, expand=True):
                     c = T('proof { assert(false); }')
                     gen2 = gen[:it2.body_open + 1] + c + gen[it2.body_open + 1:]
                 gen = gen2
+            restructured = False
+            if status != 'merged' or item.kind != 'fn':
+                perturbed = False
             if status == 'merged' and item.kind == 'fn':
+                restructured = [x for x in et if x in SKELETON] != [x for x in es if x in SKELETON]
                 for k3, t3 in enumerate(gen):
                     if not t3.ghost and re.match(r'^[A-Z][A-Z0-9_]{2,}$', t3.text) and (k3 == 0 or gen[k3 - 1].text != '::'):
                         unit.caps_idents.add((t3.text, rel))
@@ -980,7 +997,7 @@ def generate(unit, canary=False, expand=True):
             start_line, end_line = len(out_chunks) - 1, gen[0].trivia.count('\n')
             for k2, v in hits.items():
                 unit.hits[k2] = unit.hits.get(k2, 0) + v
-            unit.items.append({'file': rel, 'path': ' :: '.join(path), 'kind': item.kind, 'status': status,
+            unit.items.append({'file': rel, 'path': ' :: '.join(path), 'kind': item.kind, 'status': status, 'restructured': restructured, 'perturbed': perturbed,
                                'hits': hits, 'lines': (start_line, end_line), 'src_line': stoks_all[sitem.hstart].line,
                                'has_body': item.kind == 'fn' and item.body_open is not None})
             pos = item.end
